@@ -161,6 +161,14 @@ def replay(args):
                 parent_ids = [i for i in (objs[o]._verif_ids)] if hasattr(objs[o], '_verif_ids') else [1, 2, 3, 4]
                 child = index_obj(objs[o], arg, parent_ids, objkind)
                 objs['C' if o == 'P' else 'G'] = child
+            elif op == 'get_absent':
+                ob = objs[o]
+                try:
+                    r = ob.get_label(int(arg)) if objkind != 'apstats' else ob.get_id(int(arg))
+                    got = [int(x) for x in np.atleast_1d(r.labels if objkind != 'apstats' else r.ids)]
+                    out.append(('get_label_selects_by_label', dict(sig, arg='absent'), {'history': ops, 'requested': int(arg), 'object_ids': post['ids'][o], 'returned': got}))
+                except Exception:  # noqa  (any refusal is fine: the statement only forbids returning another source)
+                    pass
             elif op == 'add_extra':
                 ob = objs[o]
                 n = len(post['ids'][o])
